@@ -71,7 +71,7 @@ def class_weights(tier):
 
 
 def n_runs(tier):
-    return 5_000 if tier == "quick" else 200_000
+    return 5_000 if tier == "quick" else 120_000
 
 
 def _outcome(fn):
